@@ -16,7 +16,8 @@
    generation_id.wrapping_add(1) is modelled on unbounded numbers (2^64 generations are out of reach).
    The model parameter n (num_threads) is a Section variable.
 
-   Ghost state: arr g (arrivals that joined generation g), ldr g (leaders of g), ret g (non-leader returns from g),
+   Ghost state: arr g (arrivals that joined generation g), ldr g (leader decisions of g), ret g (non-leader returns from g),
+   lret g (leader returns from g),
    inl (actors inside wait() as non-leaders: registered for a generation, not yet returned). *)
 From Coq Require Import List Arith ZArith Bool Lia.
 Import ListNotations.
@@ -25,7 +26,7 @@ Require Import MayV.Sync.CondvarModel.
 Inductive bpcT := BIdle | BIn | BLoop | BWait | BNotify | BExit | BExitL | BGone.
 
 Record bst := { cs : st; cnt : nat; gen : nat; bpc : nat -> bpcT; lgen : nat -> nat; bco : nat -> bool;
-                arr : nat -> nat; ldr : nat -> nat; ret : nat -> nat; inl : list nat; viol : bool }.
+                arr : nat -> nat; ldr : nat -> nat; ret : nat -> nat; lret : nat -> nat; inl : list nat; viol : bool }.
 
 Inductive baction :=
   | BArrive (a : nat) (co : bool)       (* a thread (co = false) or coroutine calls Barrier::wait *)
@@ -46,8 +47,8 @@ Definition pc_dead (p : pc) : bool := match p with Dead => true | _ => false end
 Section Barrier.
 Variable n : nat.
 
-Definition set_cs (s : bst) c := {| cs := c; cnt := cnt s; gen := gen s; bpc := bpc s; lgen := lgen s; bco := bco s; arr := arr s; ldr := ldr s; ret := ret s; inl := inl s; viol := viol s |}.
-Definition set_bpc (s : bst) a p := {| cs := cs s; cnt := cnt s; gen := gen s; bpc := bupd (bpc s) a p; lgen := lgen s; bco := bco s; arr := arr s; ldr := ldr s; ret := ret s; inl := inl s; viol := viol s |}.
+Definition set_cs (s : bst) c := {| cs := c; cnt := cnt s; gen := gen s; bpc := bpc s; lgen := lgen s; bco := bco s; arr := arr s; ldr := ldr s; ret := ret s; lret := lret s; inl := inl s; viol := viol s |}.
+Definition set_bpc (s : bst) a p := {| cs := cs s; cnt := cnt s; gen := gen s; bpc := bupd (bpc s) a p; lgen := lgen s; bco := bco s; arr := arr s; ldr := ldr s; ret := ret s; lret := lret s; inl := inl s; viol := viol s |}.
 
 Definition bstep (s : bst) (ac : baction) : option bst :=
   match ac with
@@ -55,7 +56,7 @@ Definition bstep (s : bst) (ac : baction) : option bst :=
       match bpc s a with
       | BIdle => match step (cs s) (Lock a) with
                  | Some c => Some {| cs := c; cnt := cnt s; gen := gen s; bpc := bupd (bpc s) a BIn; lgen := lgen s; bco := bupd (bco s) a co;
-                                     arr := arr s; ldr := ldr s; ret := ret s; inl := inl s; viol := viol s |}
+                                     arr := arr s; ldr := ldr s; ret := ret s; lret := lret s; inl := inl s; viol := viol s |}
                  | None => None end
       | _ => None end
   | BStep a =>
@@ -63,25 +64,26 @@ Definition bstep (s : bst) (ac : baction) : option bst :=
       match bpc s a with
       | BIn => if Nat.ltb (S (cnt s)) n
                then Some {| cs := cs s; cnt := S (cnt s); gen := gen s; bpc := bupd (bpc s) a BLoop; lgen := bupd (lgen s) a (gen s); bco := bco s;
-                            arr := bupd (arr s) (gen s) (S (arr s (gen s))); ldr := ldr s; ret := ret s; inl := a :: inl s; viol := v |}
+                            arr := bupd (arr s) (gen s) (S (arr s (gen s))); ldr := ldr s; ret := ret s; lret := lret s; inl := a :: inl s; viol := v |}
                else match step (cs s) (NotifyAll a) with
                     | Some c => Some {| cs := c; cnt := O; gen := S (gen s); bpc := bupd (bpc s) a BNotify; lgen := bupd (lgen s) a (gen s); bco := bco s;
-                                        arr := bupd (arr s) (gen s) (S (arr s (gen s))); ldr := bupd (ldr s) (gen s) (S (ldr s (gen s))); ret := ret s;
+                                        arr := bupd (arr s) (gen s) (S (arr s (gen s))); ldr := bupd (ldr s) (gen s) (S (ldr s (gen s))); ret := ret s; lret := lret s;
                                         inl := inl s; viol := v |}
                     | None => None end
       | BLoop => if Nat.eqb (lgen s a) (gen s)
                  then match step (cs s) (Wait a (bco s a) None) with
                       | Some c => Some {| cs := c; cnt := cnt s; gen := gen s; bpc := bupd (bpc s) a BWait; lgen := lgen s; bco := bco s;
-                                          arr := arr s; ldr := ldr s; ret := ret s; inl := inl s; viol := v |}
+                                          arr := arr s; ldr := ldr s; ret := ret s; lret := lret s; inl := inl s; viol := v |}
                       | None => None end
                  else Some {| cs := cs s; cnt := cnt s; gen := gen s; bpc := bupd (bpc s) a BExit; lgen := lgen s; bco := bco s;
-                              arr := arr s; ldr := ldr s; ret := ret s; inl := inl s; viol := v |}
+                              arr := arr s; ldr := ldr s; ret := ret s; lret := lret s; inl := inl s; viol := v |}
       | BExit => match step (cs s) (Unlock a false) with
                  | Some c => Some {| cs := c; cnt := cnt s; gen := gen s; bpc := bupd (bpc s) a BIdle; lgen := lgen s; bco := bco s;
-                                     arr := arr s; ldr := ldr s; ret := bupd (ret s) (lgen s a) (S (ret s (lgen s a))); inl := rm a (inl s); viol := viol s |}
+                                     arr := arr s; ldr := ldr s; ret := bupd (ret s) (lgen s a) (S (ret s (lgen s a))); lret := lret s; inl := rm a (inl s); viol := viol s |}
                  | None => None end
       | BExitL => match step (cs s) (Unlock a false) with
-                  | Some c => Some (set_bpc (set_cs s c) a BIdle)
+                  | Some c => Some {| cs := c; cnt := cnt s; gen := gen s; bpc := bupd (bpc s) a BIdle; lgen := lgen s; bco := bco s;
+                                      arr := arr s; ldr := ldr s; ret := ret s; lret := bupd (lret s) (lgen s a) (S (lret s (lgen s a))); inl := inl s; viol := viol s |}
                   | None => None end
       | _ => None end
   | BInner a c =>
@@ -100,7 +102,7 @@ Definition bstep (s : bst) (ac : baction) : option bst :=
 
 Definition binit : bst :=
   {| cs := init; cnt := O; gen := O; bpc := fun _ => BIdle; lgen := fun _ => O; bco := fun _ => false;
-     arr := fun _ => O; ldr := fun _ => O; ret := fun _ => O; inl := []; viol := false |}.
+     arr := fun _ => O; ldr := fun _ => O; ret := fun _ => O; lret := fun _ => O; inl := []; viol := false |}.
 Inductive BReach : bst -> Prop :=
 | BR0 : BReach binit
 | BRS s a s' : BReach s -> bstep s a = Some s' -> BReach s'.
